@@ -18,7 +18,7 @@ import tempfile
 from . import driver
 from .driver import assemble
 
-SCRATCH = os.environ.get("PDPMC_C18_SCRATCH") or tempfile.mkdtemp(prefix="pdpmc-c18-", dir="/dev/shm" if os.path.isdir("/dev/shm") else None)
+SCRATCH = os.environ.get("PDPMC_C18_SCRATCH")   # created in main() when the module runs as the explorer
 TREE = {
     "once.mac": ".once\n.byte 21\n.byte 22\n",
     "inc2.mac": ".byte 7\n.byte 10\n",
@@ -189,6 +189,9 @@ def mode_ref():
     return [fork_call(lambda i=i: run_event(i)) for i in range(len(EVENTS))]
 
 
+MAX_STATES = 40
+
+
 def mode_bfs(max_depth):
     ref = mode_ref()
     fp0, _ = fingerprint()
@@ -197,9 +200,13 @@ def mode_bfs(max_depth):
     transitions = 0
     diffs = []
     depth_reached = 0
-    while frontier and depth_reached < max_depth:
+    capped = False
+    while frontier and depth_reached < max_depth and not capped:
         nxt = []
         for hist in frontier:
+            if len(seen) > MAX_STATES:
+                capped = True   # a counter that keeps counting: the graph will never close, stop and say so
+                break
             def explore(hist=hist):
                 for e in hist:
                     run_event(e)
@@ -225,7 +232,7 @@ def mode_bfs(max_depth):
                     nxt.append(hist + [i])
         frontier = nxt
         depth_reached += 1
-    return {"states": len(seen), "transitions": transitions, "closed": not frontier, "depth": depth_reached, "diffs": diffs[:20], "ndiffs": len(diffs),
+    return {"states": len(seen), "transitions": transitions, "closed": not frontier and not capped, "capped_at": MAX_STATES if capped else None, "depth": depth_reached, "diffs": diffs[:20], "ndiffs": len(diffs),
             "state_histories": list(seen.values())[:10]}
 
 
@@ -287,6 +294,9 @@ def mode_seq(seq):
 
 
 def main():
+    global SCRATCH
+    if not SCRATCH:
+        SCRATCH = tempfile.mkdtemp(prefix="pdpmc-c18-", dir="/dev/shm" if os.path.isdir("/dev/shm") else None)
     mode = sys.argv[1]
     arg = json.loads(sys.argv[2]) if len(sys.argv) > 2 else None
     try:
